@@ -128,6 +128,81 @@ def lookupSession (eon : Bool) (b : BucketObj) : List Key → List (Option Nat)
   | [] => []
   | k :: ks => (getValueStep eon b k).2 :: lookupSession eon (getValueStep eon b k).1 ks
 
+/-! ### `TrieBucketBuilder.Write` with its index arithmetic (round 12)
+
+`writeBlocks` above cuts the sorted pairs by `take`/`drop`. The Go code computes a block COUNT from
+`len(keys)` by division / remainder and then slices `kvs.Keys[start:end]` with `start = i*blockSize`,
+`end = min(start+blockSize, len)`. Both sites are mirrored here statement by statement (tie
+`gen_bucket_builder_write_body`); `builder_blocks_partition` proves they cooperate for every size. -/
+
+/-- `numBlocks := len(keys) / b.blockSize; if len(keys)%b.blockSize != 0 { numBlocks++ }` -/
+def numBlocksGo (n blockSize : Nat) : Nat :=
+  if n % blockSize != 0 then n / blockSize + 1 else n / blockSize
+
+/-- `start := i * b.blockSize; end := start + b.blockSize; if end > len(keys) { end = len(keys) }` -/
+def blockBounds (n blockSize i : Nat) : Nat × Nat :=
+  let start := i * blockSize
+  let stop := start + blockSize
+  (start, if stop > n then n else stop)
+
+/-- the Go slice expression `s[lo:hi]` (capacity = length): panics (`none`) unless `lo ≤ hi ≤ len(s)` -/
+def goSlice {α : Type} (s : List α) (lo hi : Nat) : Option (List α) :=
+  if lo ≤ hi ∧ hi ≤ s.length then some ((s.drop lo).take (hi - lo)) else none
+
+/-- `for i := 0; i < numBlocks; i++ { … kvs.Keys[start:end] … }`: `count` iterations left, loop
+variable `i`; `none` = a slice expression panicked -/
+def blocksLoop (blockSize : Nat) (s : List KV) : Nat → Nat → Option (List (List KV))
+  | 0, _ => some []
+  | count + 1, i =>
+    match goSlice s (blockBounds s.length blockSize i).1 (blockBounds s.length blockSize i).2,
+        blocksLoop blockSize s count (i + 1) with
+    | some b, some r => some (b :: r)
+    | _, _ => none
+
+/-- `TrieBucketBuilder.Write(keys, ids)`: the key lists handed to `builder.Build`, in order; `none` =
+panic (`blockSize = 0`: integer divide by zero; a slice out of range) -/
+def writeBlocksGo (blockSize : Nat) (kvs : List KV) : Option (List (List KV)) :=
+  if blockSize = 0 then none
+  else blocksLoop blockSize (sortKVs kvs) (numBlocksGo (sortKVs kvs).length blockSize) 0
+
+/-! ### `TrieBucket.CollectKVs` (reverse lookup value → key; round 12)
+
+```
+for _, kv := range b.kvs { itr := kv.tree.NewPrefixIterator(nil)
+  for itr.Valid() { val := itr.Value()
+    if values.Contains(val) { result[val] = string(itr.Key()); values.Remove(val) }
+    if values.IsEmpty() { return }
+    itr.Next() } }
+```
+`values` (a roaring bitmap = a set) is a duplicate-free list; the writes into the caller's `result` map are
+returned in the order they happen. -/
+
+/-- the inner `for itr.Valid()` loop over one trie's pairs: (values left, writes so far, returned early) -/
+def collectPairs : List KV → List Nat → List (Nat × Key) → List Nat × List (Nat × Key) × Bool
+  | [], vs, res => (vs, res, false)
+  | (k, v) :: rest, vs, res =>
+    let vs' := if vs.contains v then vs.erase v else vs
+    let res' := if vs.contains v then res ++ [(v, k)] else res
+    if vs'.isEmpty then (vs', res', true) else collectPairs rest vs' res'
+
+/-- `CollectKVs`: the outer `range b.kvs` loop; the `return` inside ends both loops -/
+def collectTries (step : Bool) : List Node → List Nat → List (Nat × Key) → List (Nat × Key)
+  | [], _, res => res
+  | t :: ts, vs, res =>
+    let r := collectPairs (prefixIter step t []) vs res
+    if r.2.2 then r.2.1 else collectTries step ts r.1 r.2.1
+
+/-- spec: scan ALL pairs in enumeration order (no early exit), the first pair carrying a wanted value wins -/
+def firstHits : List KV → List Nat → List (Nat × Key)
+  | [], _ => []
+  | (k, v) :: rest, vs =>
+    if vs.contains v then (v, k) :: firstHits rest (vs.erase v) else firstHits rest vs
+
+/-- the wanted values still open after scanning the pairs -/
+def remVals : List KV → List Nat → List Nat
+  | [], vs => vs
+  | (_, v) :: rest, vs => remVals rest (if vs.contains v then vs.erase v else vs)
+
 /-! ### like dispatch (index/kv_store.go `indexKVStore.FindValuesByLike`) -/
 
 /-- `'*'` -/
